@@ -59,7 +59,18 @@ def newline_rules(ctx: Ctx, rid: str) -> None:
         import re as _re
 
         alts = [a.encode().decode("unicode_escape") for a in _re.findall(r"\\r\\n|\\r|\\n", pat.pattern)]
-    ctx.need(len(alts) >= 3, f"newline_re alternatives not understood: {pat.pattern!r}")
+    # what counts as a line break: exactly \r\n, \r and \n (decided on the automaton of the pattern)
+    from .rx import DFA
+    from .rx import counterexample_not_subset
+
+    ab = ["\r", "\n", "a", " "]
+    d_pat, d_ref = DFA(pat.pattern, pat.flags, ab), DFA(r"\r\n|\r|\n", 0, ab)
+    extra, missing = counterexample_not_subset(d_pat, d_ref), counterexample_not_subset(d_ref, d_pat)
+    ctx.check(extra is None and missing is None, "newline_re:language", "lexer:<module>", "newline_re does not match exactly the three line break forms",
+              f"newline_re = {pat.pattern!r} {'also matches ' + repr(extra) if extra is not None else ''}{' does not match ' + repr(missing) if missing is not None else ''}: source lines are split and counted with it and template data is normalised with it - a lone \\r (classic Mac line ends) must be a line break like \\n, otherwise trim_blocks / lstrip_blocks / line statements stop working for such sources while LF sources work",
+              "src/jinja2/lexer.py", detail={"pattern": pat.pattern, "also_matches": extra, "does_not_match": missing})
+    if len(alts) < 3:
+        return
     # literal order in the pattern text decides leftmost-first matching
     import re as _re
 
@@ -386,3 +397,27 @@ def token_line_rules(ctx: Ctx, rid: str) -> None:
     ctx.check("return self.lexer.tokeniter(source, name, filename)" in s and "source = str(source)" in s, "Environment.lex", "environment:Environment.lex", "raw stream", "Environment.lex must return the unfiltered tokeniter stream of str(source)", lx.loc())
     be = ctx.repo.func("ext:babel_extract")
     ctx.check("list(environment.lex(environment.preprocess(source)))" in ast.unparse(be.node), "babel_extract:lex", "ext:babel_extract", "comment finder input", "babel_extract must search comments in environment.lex(environment.preprocess(source))", be.loc())
+
+
+def whitespace_notion_rule(ctx: Ctx, rid: str) -> None:
+    """The tokenizer strips whitespace in three ways that must agree on what whitespace is:
+    the `-` sign uses str.rstrip() and the `\\s*` of the tag regexes (Unicode whitespace),
+    lstrip_blocks asks whitespace_re.fullmatch whether the text before a tag is blank.  An
+    ASCII-only whitespace_re makes an ideographic / no-break space indentation survive
+    lstrip_blocks while `{%-` removes it."""
+    import re as _re
+
+    ctx.rule(rid, "one notion of whitespace: whitespace_re (lstrip_blocks, whitespace inside tags) is `\\s+` with Unicode meaning, like str.rstrip() and the \\s* of the tag rules")
+    lm = LexModel(ctx.repo, configs()[0])
+    pat = lm.module_regex("whitespace_re")
+    asc = bool(pat.flags & _re.ASCII) or "(?a" in pat.pattern
+    ctx.check(not asc and pat.pattern.replace(" ", "") in (r"\s+", r"[\s]+"), "whitespace_re", "lexer:<module>", f"whitespace_re = {pat.pattern!r} flags {pat.flags}",
+              f"whitespace_re = re.compile({pat.pattern!r}, {pat.flags}): lstrip_blocks and the in-tag whitespace rule must use the same (Unicode) notion of whitespace as str.rstrip() and `\\s*` in the tag regexes - with re.ASCII an indentation of U+3000 / U+00A0 before a block tag is kept by lstrip_blocks but removed by `{{%-`",
+              "src/jinja2/lexer.py", detail={"pattern": pat.pattern, "flags": pat.flags})
+    n_asc = 0
+    for cfg in configs():
+        for state, rules in LexModel(ctx.repo, cfg).rules.items():
+            for rule in rules:
+                if rule.pat.origin == "inline" and (rule.pat.flags & _re.ASCII or "(?a" in rule.pat.pattern):
+                    n_asc += 1
+    ctx.check(n_asc == 0, "tag-rules:unicode", "lexer:Lexer.__init__", "tag rules compiled with re.ASCII", "the rules Lexer.__init__ builds must not be ASCII-restricted (their \\s* strips what str.rstrip() strips)", "src/jinja2/lexer.py")
